@@ -89,6 +89,125 @@ def table_fingerprint():
     return hashlib.sha1(json.dumps(fp, sort_keys=True).encode()).hexdigest(), fp
 
 
+REFUSED = ["version 3.0\nqubit[2] q\nH q[5]\n", "version 3.0\nqubit[2] q\nnosuchgate q[0]\n", "version 3.0\nqubit q\nbit b\nH q\nH b\n"]
+
+
+def worker(order, hash_seed):
+    """compile_many(order) in a fresh process -> (list of outputs | None, stderr)"""
+    envv = dict(os.environ, PYTHONHASHSEED=hash_seed, VERIF_REPO=env.REPO)
+    p = subprocess.run([sys.executable, "-c", WORKER, env.VERIF, env.REPO, json.dumps(order)], env=envv,
+                       stdout=subprocess.PIPE, stderr=subprocess.PIPE, timeout=600)
+    if p.returncode != 0:
+        return None, p.stderr.decode()
+    return json.loads(p.stdout.decode().strip().splitlines()[-1]), ""
+
+
+def reference_outputs():
+    """every pool entry compiled alone in a fresh process (no compilation history at all)"""
+    ref = []
+    for i in range(len(POOL)):
+        outs, _ = worker([i], "0")
+        ref.append(outs[0] if outs is not None else "worker failed")
+    return ref
+
+
+def check_in_process(ctx, case, ref, compiled):
+    """compiled: the pool entries compiled in this process so far, in order (recorded as the history of the case)"""
+    order = case["order"]
+    ctx.seen(case, len(order) >= 2)
+    before = len(compiled)
+    outs = compile_many(order)
+    compiled += order
+    for i, o in zip(order, outs):
+        if o != ref[i]:
+            ctx.oracle_fail("in_process", {**case, "history": compiled[:before]},
+                            f"compiling pool entry {i} after {order} gave different output", None)
+            break
+
+
+def check_shared_parser(ctx, case, ref, compiled):
+    from opensquirrel.parser.libqasm.parser import Parser
+
+    parser = Parser()
+    if case.get("refused_first"):
+        try:
+            parser.circuit_from_string(case["refused_first"])
+        except Exception:  # noqa: BLE001
+            pass
+    ctx.seen(case, True)
+    before = len(compiled)
+    for i in case["order"]:
+        compiled.append(i)
+        if compile_one(i, parser) != ref[i]:
+            ctx.oracle_fail("shared_parser", {**case, "history": compiled[:before]},
+                            f"pool entry {i} read by a Parser that had read other programs before gave different output", None)
+            break
+
+
+def check_process(ctx, case, ref):
+    ordr = case["order"]
+    ctx.seen(case)
+    outs, stderr = worker(ordr, case["hash_seed"])
+    if outs is None:
+        ctx.oracle_fail("processes", case, "worker failed: " + stderr[-400:], None)
+        return
+    for i, o in zip(ordr, outs):
+        if o != ref[i]:
+            ctx.oracle_fail("processes", case, f"pool entry {i}: output differs across processes / hash seeds", None)
+            break
+
+
+def check_sharing(ctx, case, fp0):
+    """gates handed to a callback and gates shared with another circuit are never modified; returns False when the
+    default tables changed (the run stops the suite there)"""
+    from opensquirrel import default_gates as dg
+
+    nq, specs = case["nq"], case["specs"]
+    c1 = gen.build_circuit(nq, 1, specs)
+    c2 = gen.build_circuit(nq, 1, [])
+    for s in c1.ir.statements:           # c2 shares c1's statement objects
+        c2.ir.statements.append(s)
+    shared_before = implrun.canon_post(c1.ir.statements)
+    handed = []
+
+    def rule(c, t):
+        out = implrun._rule_cnot_to_hczh(c, t)
+        handed.append((out, implrun.canon_post(out)))
+        return out
+    ctx.seen(case)
+    try:
+        c2.replace(dg.CNOT, rule)
+        c2.decompose(implrun.decomposer("zyz"))
+        c2.merge_single_qubit_gates()
+    except Exception:  # noqa: BLE001
+        return True
+    # passes on c2 rebuild c2's statement LIST; the shared objects themselves (still in c1) must be unchanged
+    if ser.struct_diff(shared_before, implrun.canon_post(c1.ir.statements), 0):
+        ctx.oracle_fail("sharing", case, "a pass on one circuit modified statements of another circuit sharing the objects", None)
+    fp2, _ = table_fingerprint()
+    if fp2 != fp0:
+        ctx.oracle_fail("tables", case, "default gate definitions / gate sets changed during a pass", None)
+        return False
+    return True
+
+
+def check_pool_vs_model(ctx, i):
+    """the model (a function) gives the same result as the implementation for pool pipeline i; returns the steps run"""
+    from opensquirrel.circuit import Circuit
+
+    src, pipeline = POOL[i]
+    c = Circuit.from_string(src)
+    nq = c.qubit_register_size
+    for p in pipeline:
+        pre = ser.ser_stmts(c.ir.statements)
+        err, post = implrun.run_impl(c, list(p))
+        (mg, r), = model.call_many([implrun.model_request(list(p), nq, pre)])
+        merr, mpost = implrun.model_outcome(list(p), r)
+        if (err is None) != (merr is None) or (mpost is not None and ser.struct_diff(post, mpost, 3e-7)):
+            ctx.disagree("pool_vs_model", {"pool": i, "pass": p}, "implementation and model differ on a pool pipeline", mg)
+    return len(pipeline)
+
+
 def run(ctx):
     rng = ctx.rng
     ctx.rule("all interleavings (ordered selections with repetition) of up to k compilations (quick 2, thorough 3; 4 sampled) "
@@ -96,144 +215,86 @@ def run(ctx):
              "{0,1,2,random}; module tables fingerprinted before/after; gates handed to a callback and gates copied from another "
              "circuit checked for mutation; non-trivial = interleaving of at least 2 compilations")
     fp0, _ = table_fingerprint()
-    # reference outputs: every pool entry compiled alone in a fresh process (no compilation history at all)
-    ref = []
-    for i in range(len(POOL)):
-        envv = dict(os.environ, PYTHONHASHSEED="0", VERIF_REPO=env.REPO)
-        p = subprocess.run([sys.executable, "-c", WORKER, env.VERIF, env.REPO, json.dumps([i])], env=envv,
-                           stdout=subprocess.PIPE, stderr=subprocess.PIPE, timeout=600)
-        ref.append(json.loads(p.stdout.decode().strip().splitlines()[-1])[0] if p.returncode == 0 else "worker failed")
+    ref = reference_outputs()
     k = ctx.pick(2, 3)
     orders = [list(o) for n in range(1, k + 1) for o in itertools.product(range(len(POOL)), repeat=n)]
     orders += [[rng.randrange(len(POOL)) for _ in range(4)] for _ in range(ctx.pick(10, 120))]
+    compiled: list = []
     for order in orders:
-        case = {"order": order}
-        ctx.seen(case, len(order) >= 2)
-        outs = compile_many(order)
-        for i, o in zip(order, outs):
-            if o != ref[i]:
-                ctx.oracle_fail("in_process", case, f"compiling pool entry {i} after {order} gave different output", None)
-                break
+        check_in_process(ctx, {"order": order}, ref, compiled)
     ctx.suite("in_process_interleavings", cases=len(orders))
     # the same interleavings with ONE Parser object reading every source of the interleaving (a compilation service keeps
     # its parser); now and then the parser is first handed a program it refuses
-    from opensquirrel.parser.libqasm.parser import Parser
-
-    refused = ["version 3.0\nqubit[2] q\nH q[5]\n", "version 3.0\nqubit[2] q\nnosuchgate q[0]\n", "version 3.0\nqubit q\nbit b\nH q\nH b\n"]
     n_sh = 0
     for order in orders:
         if len(order) < 2 and rng.random() < 0.5:
             continue
-        parser = Parser()
         case = {"order": order, "kind": "shared_parser"}
         if rng.random() < 0.3:
-            case["refused_first"] = rng.choice(refused)
-            try:
-                parser.circuit_from_string(case["refused_first"])
-            except Exception:  # noqa: BLE001
-                pass
-        ctx.seen(case, True)
+            case["refused_first"] = rng.choice(REFUSED)
+        check_shared_parser(ctx, case, ref, compiled)
         n_sh += 1
-        for i in order:
-            if compile_one(i, parser) != ref[i]:
-                ctx.oracle_fail("shared_parser", case, f"pool entry {i} read by a Parser that had read other programs before gave different output", None)
-                break
     ctx.suite("shared_parser_interleavings", cases=n_sh)
     fp1, _ = table_fingerprint()
     if fp1 != fp0:
-        ctx.oracle_fail("tables", {"check": "tables"}, "default gate definitions / gate sets changed while compiling", None)
+        ctx.oracle_fail("tables", {"check": "tables", "history": list(compiled)},
+                        "default gate definitions / gate sets changed while compiling", None)
     # fresh processes under several hash seeds
     seeds = ["0", "1", "2", "random"] if not ctx.quick else ["0", "2", "random"]
     order = list(range(len(POOL)))
     n_proc = 0
     for hs in seeds:
         for ordr in ([order, order[::-1]] if not ctx.quick else [order[::-1]]):
-            envv = dict(os.environ)
-            envv["PYTHONHASHSEED"] = hs
-            envv["VERIF_REPO"] = env.REPO
-            p = subprocess.run([sys.executable, "-c", WORKER, env.VERIF, env.REPO, json.dumps(ordr)], env=envv,
-                               stdout=subprocess.PIPE, stderr=subprocess.PIPE, timeout=600)
+            check_process(ctx, {"hash_seed": hs, "order": ordr}, ref)
             n_proc += 1
-            case = {"hash_seed": hs, "order": ordr}
-            ctx.seen(case)
-            if p.returncode != 0:
-                ctx.oracle_fail("processes", case, "worker failed: " + p.stderr.decode()[-400:], None)
-                continue
-            outs = json.loads(p.stdout.decode().strip().splitlines()[-1])
-            for i, o in zip(ordr, outs):
-                if o != ref[i]:
-                    ctx.oracle_fail("processes", case, f"pool entry {i}: output differs across processes / hash seeds", None)
-                    break
     ctx.suite("fresh_processes", cases=n_proc, hash_seeds=seeds)
     # gates handed to a callback, and gates copied from another circuit, are never modified
-    from opensquirrel import default_gates as dg
-    from opensquirrel.circuit import Circuit
-
     n_cb = 0
     for _ in range(ctx.pick(40, 400)):
         nq = rng.randint(2, 4)
         specs = gen.rand_circuit_spec(rng, nq, 1, rng.randint(2, 7), max_ctrl=1, allow_mat=False, wide_angles=False)
         specs.append(["named", "CNOT", gen.rand_qubits(rng, nq, 2)])
-        c1 = gen.build_circuit(nq, 1, specs)
-        c2 = gen.build_circuit(nq, 1, [])
-        for s in c1.ir.statements:           # c2 shares c1's statement objects
-            c2.ir.statements.append(s)
-        shared_before = implrun.canon_post(c1.ir.statements)
-        handed = []
-
-        def rule(c, t):
-            out = implrun._rule_cnot_to_hczh(c, t)
-            handed.append((out, implrun.canon_post(out)))
-            return out
-        case = {"nq": nq, "nb": 1, "specs": specs}
-        ctx.seen(case)
         n_cb += 1
-        try:
-            c2.replace(dg.CNOT, rule)
-            c2.decompose(implrun.decomposer("zyz"))
-            c2.merge_single_qubit_gates()
-        except Exception:  # noqa: BLE001
-            continue
-        # passes on c2 rebuild c2's statement LIST; the shared objects themselves (still in c1) must be unchanged
-        if ser.struct_diff(shared_before, implrun.canon_post(c1.ir.statements), 0):
-            ctx.oracle_fail("sharing", case, "a pass on one circuit modified statements of another circuit sharing the objects", None)
-        fp2, _ = table_fingerprint()
-        if fp2 != fp0:
-            ctx.oracle_fail("tables", case, "default gate definitions / gate sets changed during a pass", None)
+        if not check_sharing(ctx, {"nq": nq, "nb": 1, "specs": specs}, fp0):
             break
     ctx.suite("callbacks_and_sharing", cases=n_cb)
     # correspondence: the model (a function) gives the same result as the implementation for the pool pipelines
     n_m = 0
-    for i, (src, pipeline) in enumerate(POOL):
-        c = Circuit.from_string(src)
-        nq = c.qubit_register_size
-        for p in pipeline:
-            pre = ser.ser_stmts(c.ir.statements)
-            err, post = implrun.run_impl(c, list(p))
-            (mg, r), = model.call_many([implrun.model_request(list(p), nq, pre)])
-            merr, mpost = implrun.model_outcome(list(p), r)
-            n_m += 1
-            if (err is None) != (merr is None) or (mpost is not None and ser.struct_diff(post, mpost, 3e-7)):
-                ctx.disagree("pool_vs_model", {"pool": i, "pass": p}, "implementation and model differ on a pool pipeline", mg)
+    for i in range(len(POOL)):
+        n_m += check_pool_vs_model(ctx, i)
     ctx.suite("pool_vs_model", cases=n_m)
     ctx.sample({"pool_entry": 0, "output": ref[0][:300]})
 
 
-def replay(ctx, payload):
-    case = payload.get("case") or {}
-    if "order" in case:
-        ref = [compile_one(i) for i in range(len(POOL))]
-        if case.get("kind") == "shared_parser":
-            from opensquirrel.parser.libqasm.parser import Parser
+def replay_history(case):
+    """compile again, in this process, what the run had compiled before the case"""
+    compiled = []
+    for i in case.get("history", []):
+        compile_one(i)
+        compiled.append(i)
+    return compiled
 
-            parser = Parser()
-            if case.get("refused_first"):
-                try:
-                    parser.circuit_from_string(case["refused_first"])
-                except Exception:  # noqa: BLE001
-                    pass
-            outs = [compile_one(i, parser) for i in case["order"]]
-            return {"fails": any(o != ref[i] for i, o in zip(case["order"], outs))}
-        outs = compile_many(case["order"])
-        return {"fails": any(o != ref[i] for i, o in zip(case["order"], outs))}
-    return {"fails": payload.get("kind") == "oracle", "case": case}
+
+def replay(ctx, payload):
+    from harness import framework
+
+    suite, case = framework.replay_target(payload)
+    if case is None:
+        return framework.replay_nothing(payload)
+    pub = {k: v for k, v in case.items() if k != "history"}
+    if "pool" in case:
+        check_pool_vs_model(ctx, case["pool"])
+    elif "hash_seed" in case:
+        check_process(ctx, pub, reference_outputs())
+    elif case.get("check") == "tables":
+        fp0, _ = table_fingerprint()
+        replay_history(case)
+        if table_fingerprint()[0] != fp0:
+            ctx.oracle_fail("tables", case, "default gate definitions / gate sets changed while compiling", None)
+    elif "specs" in case:
+        check_sharing(ctx, pub, table_fingerprint()[0])
+    elif case.get("kind") == "shared_parser":
+        check_shared_parser(ctx, pub, reference_outputs(), replay_history(case))
+    else:
+        check_in_process(ctx, pub, reference_outputs(), replay_history(case))
+    return framework.replay_result(ctx)
